@@ -39,7 +39,6 @@ def replay(hists, kind, make, use, misuse, same, tid_prefix):
                 except Exception as ex:  # noqa
                     e["raised"] = 1
                     e["error"] = repr(ex)[:200]
-                    break
         if 0 in e["rejected"]:
             continue  # the call was accepted: not a failure history of this class (nothing to judge)
         events.append(e)
